@@ -1,6 +1,7 @@
 package sim
 
 import (
+	"fmt"
 	"math/big"
 	"sort"
 
@@ -48,6 +49,8 @@ type Profile struct {
 	PRetry         int      // percent of record/purchase operations that retry an earlier rolled-back attempt (same party, same identifier)
 	PForward       int      // percent of follow-up messages after a registration that use that registration (forward reference)
 	PMultiTarget   int      // percent of txs starting with a storage purchase that go on purchasing for other targets (neighbours, nonexistent ones)
+	PAmino         int      // percent of txs signed in the legacy amino-JSON mode
+	PTamper        int      // percent of faulty txs whose fault is "a message field altered after signing"
 	NodeMinGas     bool     // the node may have a minimum-gas-prices setting (mempool policy), and CheckTx-only txs vary their gas limit
 	RegDenomMix    bool     // genesis: the WRKChain / BEACON fee denomination may differ from the enterprise denomination
 	PReimport      int      // percent of blocks (after the first) before which the network is restarted from an exported genesis
@@ -163,6 +166,13 @@ func GenGenesis(t *rapid.T, p *Profile) lab.GenesisCfg {
 				if oneIn(t, 6, "xd"+d) {
 					a.Bal[d] = pick(t, []string{"1", "1000", "123456789012345678901234567890"}, "xdAmt")
 				}
+			}
+		}
+		if p.ManyDenoms && i == 1 && oneIn(t, 7, "hugeDenoms") {
+			// more denominations than one default page (100) or two of them hold: IBC vouchers accumulate like this
+			k := pick(t, []int{95, 99, 100, 101, 150, 199, 201, 230, 260}, "hugeDenomsN")
+			for j := 0; j < k; j++ {
+				a.Bal[fmt.Sprintf("d%03d", j)] = "1"
 			}
 		}
 		accts[i] = a
@@ -412,6 +422,9 @@ func GenParams(t *rapid.T, p *Profile, kind string, nAcc int) *ParamsPatch {
 		if oneIn(t, 3, "entSteer") {
 			pp.Steer = uniRange(t, 1, 3, "entSteerKind")
 		}
+		if oneIn(t, 5, "upperSigner") {
+			pp.UpperSigner = uniRange(t, 1, 4, "upperSignerK")
+		}
 		if p.EntDenomChange && oneIn(t, 4, "entDenom") {
 			pp.Denom = pick(t, denomsValid, "entDenomV")
 		}
@@ -609,9 +622,26 @@ func GenScenario(t *rapid.T, p *Profile) *Scenario {
 			}
 			if pct(t, p.PFault, "fault") {
 				tx.Fault = uniRange(t, 1, 4, "faultKind")
+				if pct(t, p.PTamper, "tamper") {
+					tx.Fault = lab.FaultTamper
+					tx.TamperK = uniRange(t, 0, 11, "tamperK")
+				}
+			}
+			if pct(t, p.PAmino, "amino") {
+				tx.Amino = true
 			}
 			if len(tx.Ops) >= 2 && pct(t, p.PExecTail, "execTail") {
 				tx.Wrap = WrapExecTail
+				tx.TailSelf = oneIn(t, 2, "tailSelf")
+				if k2 := map[string][]string{WrkReg: {WrkRec, WrkPur}, WrkRec: {WrkRec, WrkPur}, WrkPur: {WrkRec, WrkPur}, BcnReg: {BcnRec, BcnPur}, BcnRec: {BcnRec, BcnPur}, BcnPur: {BcnRec, BcnPur}}[tx.Ops[0].Kind]; tx.TailSelf && k2 != nil && oneIn(t, 2, "tailSameModule") {
+					// ... and they are operations of the first message's module on whatever registrations exist
+					for j := 1; j < len(tx.Ops); j++ {
+						if tx.Ops[j].Ref == -4 {
+							continue
+						}
+						tx.Ops[j] = GenOp(t, p, pick(t, k2, "tailKind"), nAcc)
+					}
+				}
 			} else if pct(t, p.PExec, "exec") {
 				tx.Wrap = pick(t, []int{WrapExec, WrapExec, WrapExec, WrapExec2}, "wrap")
 				tx.Grantee = -1
